@@ -49,6 +49,10 @@ def variants(sc, b):
         if sessprop.sampled(sc2, b, 3):
             # a reset connection: shutdown() answers ENOTCONN, the descriptor must be closed all the same
             out.append((mech + '-enotconn', dict(copy.deepcopy(sc2), shutdown_raises=True)))
+        if sessprop.sampled(sc2, b, 2):
+            # another thread is in the middle of a send (holds the write lock) when the consumer abandons: the library
+            # has to wait for it, not skip the close
+            out.append((mech + '-contended', dict(copy.deepcopy(sc2), contended_lock=True)))
     return out
 
 
